@@ -3,7 +3,8 @@ From Coq Require Import List Arith ZArith.
 Import ListNotations.
 From Exmex.Model Require Import Base EvalBinary Lexer Flat Deep Convert.
 From Exmex.Spec Require Import RefSem.
-From Exmex.Proofs Require Import CompileCorrect FlatPev DeepSem DeepCompile DeepParse C03Main C01Main C01Vars C11Main ConvertMain ToDeep ConvertCompose Accept.
+From Coq Require Import Sorted.
+From Exmex.Proofs Require Import CompileCorrect FlatPev DeepSem DeepCompile DeepParse C03Main C01Main C01Vars C11Main ConvertMain ToDeep ConvertCompose Accept WalkSim Vars Listings ParseListings.
 Open Scope nat_scope.
 
 (* 1. The deep parser (recursive descent, one folded sub-expression per parenthesis group and per variable under unary
@@ -143,6 +144,45 @@ Theorem C03_every_parsed_flat_expression_converts :
   make_expression tb true text ts (find_parsed_vars ts) = Ok fx -> flat_ok C tb fx.
 Proof. exact @parsed_flat_ok. Qed.
 
+(* 7. Operator listings.  (a) On EVERY expression of either form all three listings are strictly increasing in the
+   order of the names, hence sorted and duplicate free. *)
+Theorem C03_listings_sorted_duplicate_free :
+  forall (D : Type) (tb : optable) (e : deepex D) (fx : flatex D),
+  (StronglySorted str_lt (d_binary_reprs tb e) /\ StronglySorted str_lt (d_unary_reprs tb e) /\ StronglySorted str_lt (d_operator_reprs tb e) /\ StronglySorted str_lt (f_binary_reprs tb fx) /\ StronglySorted str_lt (f_unary_reprs tb fx) /\ StronglySorted str_lt (f_operator_reprs tb fx)) /\ (NoDup (d_binary_reprs tb e) /\ NoDup (d_unary_reprs tb e) /\ NoDup (d_operator_reprs tb e) /\ NoDup (f_binary_reprs tb fx) /\ NoDup (f_unary_reprs tb fx) /\ NoDup (f_operator_reprs tb fx)).
+Proof. intros D tb e fx. split; [exact (listings_sorted tb e fx)|exact (listings_nodup tb e fx)]. Qed.
+
+(* (b) They contain exactly the names of the operators occurring in the expression, at every nesting level. *)
+Theorem C03_listings_are_the_operators_of_the_expression :
+  forall (D : Type) (tb : optable) (e : deepex D) (fx : flatex D),
+  (d_binary_reprs tb e = sort_strs (map (repr_of tb) (bnames e)) /\ d_unary_reprs tb e = sort_strs (map (repr_of tb) (unames e)) /\ d_operator_reprs tb e = sort_strs (map (repr_of tb) (bnames e ++ unames e))) /\ (f_binary_reprs tb fx = sort_strs (map (repr_of tb) (fbnames fx)) /\ f_unary_reprs tb fx = sort_strs (map (repr_of tb) (funames fx)) /\ f_operator_reprs tb fx = sort_strs (map (repr_of tb) (fbnames fx ++ funames fx))).
+Proof. intros D tb e fx. split; [exact (deep_listings tb e)|exact (flat_listings tb fx)]. Qed.
+
+(* (c) Converting a deep expression into the flat form (any structurally well-formed expression: operand counts at
+   every level) keeps all three listings. *)
+Theorem C03_deep_to_flat_keeps_the_listings :
+  forall (D : Type) (C : carrier D) (tb : optable) (okop : dbop -> Prop) (okvar : nat -> str -> Prop) (okvars : list str -> Prop)
+         (fixed_bump : bool) (e : deepex D) (fx : flatex D),
+  dwf okop okvar okvars e -> from_deepex C tb fixed_bump e = Ok fx ->
+  f_binary_reprs tb fx = d_binary_reprs tb e /\ f_unary_reprs tb fx = d_unary_reprs tb e /\ f_operator_reprs tb fx = d_operator_reprs tb e.
+Proof. exact @from_deepex_listings. Qed.
+
+(* (d) The unfolded flat parse of the rendering of every well-formed tree lists exactly the operators of the tree
+   (everything in the text and nothing else) ... *)
+Theorem C03_unfolded_parse_lists_the_operators_of_the_text :
+  forall (D : Type) (C : carrier D) (tb : optable) (vars : list str), wf_table tb = true ->
+  forall (c : chain (D:=D)) (text : str),
+  wf_chain tb c = true -> vars_in_atom vars (fst c) -> vars_in_rest vars (snd c) ->
+  exists fx, make_expression tb true text (flatten c) vars = Ok fx /\  f_binary_reprs tb fx = sort_strs (map (repr_of tb) (chain_bn c)) /\  f_unary_reprs tb fx = sort_strs (map (repr_of tb) (chain_un c)) /\  f_operator_reprs tb fx = sort_strs (map (repr_of tb) (chain_bn c ++ chain_un c)).
+Proof. exact @unfolded_parse_listings. Qed.
+
+(* (e) ... and constant folding (FlatEx::compile, on any flat expression) only ever removes names: nothing absent
+   from the text is reported.  Partial: that every operator applied to a variable-dependent operand stays listed is
+   left to the correspondence. *)
+Theorem C03_folding_only_removes_names_partial :
+  forall (D : Type) (C : carrier D) (tb : optable) (fixed_bump : bool) (fx fx' : flatex D), compile C fixed_bump fx = Ok fx' ->
+  incl (f_binary_reprs tb fx') (f_binary_reprs tb fx) /\ incl (f_unary_reprs tb fx') (f_unary_reprs tb fx) /\ incl (f_operator_reprs tb fx') (f_operator_reprs tb fx).
+Proof. intros D C tb fb fx fx'. exact (compile_listings C tb fb fx fx'). Qed.
+
 (* non-vacuity: -(a+b)*sin cos c ^ 2 + 3 + 4, deep *)
 Definition ex_tb : optable :=
   [ {| repr := [43]%N; obin := Some {| prio := 0; comm := true |}; ounary := true; oconst := false |};
@@ -162,7 +202,7 @@ Proof. vm_compute. reflexivity. Qed.
 
 (* Outside these theorems (covered by the correspondence of this check): sloppy strings parsed by the DEEP parser
    directly (the flat parse of every accepted token list and its conversions are covered by 4-6), and the operator
-   listings. *)
+   listings of folded and deep-parsed expressions beyond 7 (which names folding removes). *)
 Print Assumptions C03_deep_parse_is_reference.
 Print Assumptions C03_deep_token_entry_point.
 Print Assumptions C03_flat_and_deep_agree.
@@ -171,3 +211,8 @@ Print Assumptions C03_flat_to_deep.
 Print Assumptions C03_deep_to_flat.
 Print Assumptions C03_any_number_of_round_trips.
 Print Assumptions C03_every_parsed_flat_expression_converts.
+Print Assumptions C03_listings_sorted_duplicate_free.
+Print Assumptions C03_listings_are_the_operators_of_the_expression.
+Print Assumptions C03_deep_to_flat_keeps_the_listings.
+Print Assumptions C03_unfolded_parse_lists_the_operators_of_the_text.
+Print Assumptions C03_folding_only_removes_names_partial.
